@@ -549,6 +549,7 @@ func newNode(id int, vals []dbft.PublicKey, amev int64, w *bufio.Writer, pre ...
 		dbft.WithNewBlockFromContext[H](func(c *dbft.Context[H]) dbft.Block[H] {
 			if n.nilBlock || (n.flaky && n.rng.Intn(60) == 0) {
 				n.logf("NEWBLOCK 0")
+				n.mon.event(n, "NEWBLOCKNIL")
 				return nil
 			}
 			n.logf("NEWBLOCK 1")
